@@ -3,6 +3,7 @@
   delivered to the one handler waiting for its id, after which nobody waits for that id.
 -/
 import MptModel.Impl.Reply
+import MptModel.Lemmas.ReplyId
 namespace Mpt.Requester
 
 /-- ids of the entries with a handler -/
@@ -157,5 +158,123 @@ theorem deactivate_active (es : List Slot) (id : Nat) (h : (activeIds es).Nodup)
       simp only [h1, Bool.false_and, Bool.false_eq_true, if_false]
       simp only [activeIds, active, List.filter_cons, h1, Bool.false_eq_true, if_false] at this ⊢
       exact this
+
+/- ---------------------------------------------------------------- the ids in use stay distinct over histories -/
+
+theorem nodup_deactivate (es : List Slot) (id : Nat) (h : (activeIds es).Nodup) : (activeIds (deactivate es id)).Nodup := by
+  rw [deactivate_active es id h]
+  exact List.Nodup.sublist List.filter_sublist h
+
+theorem activeIds_active (es : List Slot) : activeIds (active es) = activeIds es := by
+  simp [activeIds, active_active]
+
+/-- `arr.getD []` has distinct active ids -/
+def Distinct (s : St) : Prop := (activeIds (s.arr.getD [])).Nodup
+
+theorem distinct_process (s : St) (m : List Byte) (h : Distinct s) : Distinct (process s m).1 := by
+  unfold process
+  split
+  · exact h
+  · simp only []
+    split
+    · cases hb : MsgId.buf2id (Reply.unmark (m.take s.idlen)) with
+      | ok pr =>
+        obtain ⟨rid, u⟩ := pr
+        simp only []
+        cases hf : findActive (s.arr.getD []) rid with
+        | none => exact h
+        | some t =>
+          simp only [Distinct]
+          cases ha : s.arr with
+          | none => simp [activeIds, active]
+          | some es =>
+            simp only [Option.map_some, Option.getD_some]
+            exact nodup_deactivate es rid (by simpa [Distinct, ha] using h)
+      | err e => exact h
+      | null => exact h
+      | oob => exact h
+      | fault => exact h
+    · exact h
+
+theorem distinct_drain (q : List (List Byte)) (s : St) (log : List Call) (h : Distinct s) : Distinct (drain q s log).1 := by
+  induction q generalizing s log with
+  | nil => simpa [drain, Distinct] using h
+  | cons m ms ih =>
+    unfold drain
+    exact ih _ _ (distinct_process s m h)
+
+theorem distinct_syncLoop (q : List (List Byte)) (s : St) (n : Nat) (log : List Call) (h : Distinct s) :
+    Distinct (syncLoop q s n log).1 := by
+  induction q generalizing s n log with
+  | nil => cases n <;> simpa [syncLoop, Distinct] using h
+  | cons m ms ih =>
+    cases n with
+    | zero => simpa [syncLoop, Distinct] using h
+    | succ n =>
+      unfold syncLoop
+      split
+      · simpa [Distinct] using h
+      · cases hb : MsgId.buf2id (Reply.unmark (m.take s.idlen)) with
+        | ok pr =>
+          obtain ⟨rid, u⟩ := pr
+          simp only []
+          cases hf : findActive (s.arr.getD []) rid with
+          | none => exact ih _ _ _ h
+          | some t =>
+            refine ih _ _ _ ?_
+            simp only [Distinct]
+            cases ha : s.arr with
+            | none => simp [activeIds, active]
+            | some es =>
+              simp only [Option.map_some, Option.getD_some]
+              exact nodup_deactivate es rid (by simpa [Distinct, ha] using h)
+        | err e => simpa [Distinct] using h
+        | null => simpa [Distinct] using h
+        | oob => simpa [Distinct] using h
+        | fault => simpa [Distinct] using h
+
+theorem distinct_sync (s : St) (h : Distinct s) : Distinct (sync s).1 := by
+  unfold sync
+  cases ha : s.arr with
+  | none => simpa [Distinct, ha] using h
+  | some es =>
+    simp only []
+    split
+    · simpa [Distinct, ha] using h
+    · have hl := distinct_syncLoop s.inq s (active es).length [] h
+      split
+      · simp only [Distinct, Option.getD_some]
+        rw [activeIds_active]
+        exact hl
+      · exact hl
+
+theorem distinct_await (s : St) (tag : Nat) (s' : St) (i : Nat) (h : Distinct s) (ha : await s tag = some (s', i)) :
+    Distinct s' := by
+  unfold await at ha
+  cases hr : reserve s.arr s.idlen tag with
+  | none => rw [hr] at ha; cases ha
+  | some pr =>
+    obtain ⟨a, j⟩ := pr
+    rw [hr] at ha
+    simp only [Option.some.injEq, Prod.mk.injEq] at ha
+    obtain ⟨rfl, rfl⟩ := ha
+    have := reserve_fresh s.arr s.idlen tag a j (by intro es he; simpa [Distinct, he] using h) hr
+    simpa [Distinct] using this.2.2.2.1
+
+theorem distinct_rstep (s : St) (op : ROp) (h : Distinct s) : Distinct (rstep s op).1 := by
+  cases op with
+  | await tag =>
+    simp only [rstep]
+    cases ha : await s tag with
+    | none => exact h
+    | some pr => obtain ⟨s', i⟩ := pr; exact distinct_await s tag s' i h ha
+  | send d => simpa [rstep, send, Distinct] using h
+  | answer fs => exact distinct_drain _ s [] h
+  | sync fs => exact distinct_sync _ (by simpa [Distinct] using h)
+
+theorem distinct_rrun (s : St) (ops : List ROp) (h : Distinct s) : Distinct (rrun s ops).1 := by
+  induction ops generalizing s with
+  | nil => exact h
+  | cons op ops ih => simp only [rrun]; exact ih _ (distinct_rstep s op h)
 
 end Mpt.Requester
